@@ -203,11 +203,16 @@ def run_probe(v, wd, tier):
 # other C++ level, other optimisation level, runtime checks off, every documented tuning macro — keeping the ISA flag
 # set of the group.  A case that is right under its home configuration and wrong, rejected by the compiler or crashing
 # under the alternative one is a configuration dependence (C06), reported with the concrete call and both flag sets.
+# -O3 is deliberately not among the alternatives of this stage: with g++ 12.2 -O3 and the AVX-512 flags the SLP vectoriser
+# miscompiles plain element-by-element code of a HARNESS (a symmetric fill `S(i,j)=A(i,j); S(j,i)=A(i,j)` through
+# Tensor::operator() loses one store; correct with -fno-tree-slp-vectorize, with clang++ -O3 and under ASan/UBSan), which would be
+# reported as a configuration dependence of the library although no library kernel is involved (see DESIGN.md 10.5).  -O3 stays in the
+# configuration matrix of the corpus above, whose cases do not build their inputs that way.
 ALTS = [
-    ("c++17/-O3", dict(std="c++17", opt="-O3", defs=[])),
+    ("c++17/-O1", dict(std="c++17", opt="-O1", defs=[])),
     ("c++14/-O0", dict(std="c++14", opt="-O0", defs=[])),
     ("c++17/-O1/NDEBUG", dict(std="c++17", opt="-O1", defs=["-DNDEBUG"])),
-    ("-O3/USE_HADD", dict(opt="-O3", defs=["-DFASTOR_USE_HADD"])),
+    ("USE_HADD", dict(defs=["-DFASTOR_USE_HADD"])),
     ("MATMUL_BLOCKS_3x2", dict(defs=["-DFASTOR_MATMUL_INNER_BLOCK_SIZE=3", "-DFASTOR_MATMUL_OUTER_BLOCK_SIZE=2"])),
     ("TRANS_BLOCKS_2x2", dict(defs=["-DFASTOR_TRANS_OUTER_BLOCK_SIZE=2", "-DFASTOR_TRANS_INNER_BLOCK_SIZE=2"])),
     ("DONT_PERFORM_OP_MIN", dict(defs=["-DFASTOR_DONT_PERFORM_OP_MIN"])),
@@ -292,7 +297,8 @@ def cross_stage(v, wd, tier, seed):
     for r in rejected:
         g = bykey[r["group"]]
         if (g["key"], r["call"]) in home_ok:
-            rep("compile-rejected", g, r["call"], r["why"]); nv += 1
+            sig = "einsum-dimension-mismatch" if "throw-expression" in r["why"] else "other"
+            rep("compile-rejected sig=%s" % sig, g, r["call"], r["why"]); nv += 1
     for e in crashed:
         g = bykey[e["group"]]
         if (g["key"], e["calls"][0]) in home_ok:
